@@ -197,6 +197,58 @@ def ref_depth(doc, i, vs):
     return max(0, ref_levels(doc["ops"][i]["sels"], doc["frags"], vs) - 1)
 
 
+def ref_paths(sels, frags, vs, maxdepth, prefix=()):
+    """reference for selected_fields: every path of field NAMES (through fragments, @skip/@include honoured) with at most
+       `maxdepth` components (None/0 = unbounded), as a set of tuples"""
+    out = set()
+    for s in sels:
+        if is_skipped(s["d"], vs):
+            continue
+        if s["k"] == "f":
+            p = prefix + (s["n"],)
+            out.add(p)
+            if not maxdepth or len(p) < maxdepth:
+                out |= ref_paths(s["s"], frags, vs, maxdepth, p)
+        elif s["k"] == "i":
+            out |= ref_paths(s["s"], frags, vs, maxdepth, prefix)
+        else:
+            fr = [f for f in frags if f["name"] == s["n"]]
+            if fr:
+                out |= ref_paths(fr[-1]["sels"], frags, vs, maxdepth, prefix)
+    return out
+
+
+PATTERNS = [None, "a/*", "*/c", "b"]
+
+
+def paths_failure(real, case, document):
+    """direct oracle on selected_fields itself: the set of listed paths = the reference set (complete and sound), for every
+       direct Field child of every operation, maxdepth in {None,0,1,2,3}, a few fnmatch patterns"""
+    import fnmatch
+    import re
+    doc, vs, rvs = case.doc, case.vs, case.real_vs
+    ops = [d for d in document.definitions if isinstance(d, real.A.OperationDefinition)]
+    for i, (op, rop) in enumerate(zip(doc["ops"], ops)):
+        fields = [s for s in op["sels"] if s["k"] == "f"]
+        rfields = [s for s in rop.selection_set.selections if isinstance(s, real.A.Field)]
+        for fj, (f, rf) in enumerate(zip(fields, rfields)):
+            for md in (None, 0, 1, 2, 3):
+                ref = ref_paths(f["s"], doc["frags"], vs, md)
+                for pat in (PATTERNS if md in (None, 2) else [None]):
+                    try:
+                        got = real.selected_fields(rf, fragments=document.fragments, variables=rvs, maxdepth=md, pattern=pat)
+                    except Exception as e:  # noqa
+                        return ("paths-raises:" + type(e).__name__, i, {"field_index": fj, "maxdepth": md, "pattern": pat})
+                    want = ref if pat is None else {p for p in ref if re.match(fnmatch.translate(pat), "/".join(p))}
+                    gots = {tuple(p.split("/")) for p in got}
+                    if gots != want:
+                        missing = sorted("/".join(p) for p in want - gots)
+                        extra = sorted("/".join(p) for p in gots - want)
+                        return ("paths-missing" if missing else "paths-extra", i,
+                                {"field_index": fj, "maxdepth": md, "pattern": pat, "missing": missing[:5], "extra": extra[:5]})
+    return None
+
+
 def features(doc, i, vs):
     """structural features naming a failure class (computed on the shrunk case)"""
     op = doc["ops"][i]
@@ -226,6 +278,11 @@ def features(doc, i, vs):
                 fr = [f for f in doc["frags"] if f["name"] == s["n"]]
                 if fr:
                     stack = fr[-1]["sels"] + stack
+        names = {}
+        for k, group in keys.items():
+            names.setdefault(group[0]["n"], []).append(k)
+        if any(len(v) > 1 for v in names.values()):
+            fs.add("same-field-two-aliases")
         for k, group in keys.items():
             if len(group) > 1 and any(g["s"] for g in group):
                 fs.add("same-key")
@@ -557,6 +614,10 @@ def oracle_failures(real, case, limits=LIMITS, want_valid=True):
                     else:
                         fails.append(("error-order", 0, {"limit": limit, "filter": filt, "flagged": got, "expected": exp}))
                 return fails[:1]
+    if not fails and case.real_vs == case.vs:
+        pf = paths_failure(real, case, document)
+        if pf:
+            return [pf]
     if case.base is not None and not fails:
         bdoc = real.parse(p_doc(case.base, case.defaults))
         for i in range(len(doc["ops"])):
@@ -664,11 +725,14 @@ def report(ctx, real, case, fails):
         "name-filter": "the operation_name filter does not restrict the check to that operation",
         "wrap-lowers": "wrapping selections in fragments lowers the measured depth",
         "error-order": "errors not reported once per operation in document order",
+        "paths-missing": "selected_fields does not list a selected field path",
+        "paths-extra": "selected_fields lists a path that is not selected (or is beyond maxdepth / outside the pattern)",
+        "paths-raises": "selected_fields raises on a valid document",
     }[kind2.split(":")[0]]
     ctx.fail(sig, "%s (%s)" % (what, feat), small.detail(operation=i2, spec_depth=ref_depth(small.doc, i2, small.vs), **info2))
 
 
-def correspond(ctx, real, cases, fixed):
+def correspond(ctx, real, cases, fixed, sf_fixed=True):
     """model vs real code (+ Lean spec vs Python reference spec, acyclic vs validator)"""
     if not ctx.model_ok or not cases:
         return
@@ -702,22 +766,20 @@ def correspond(ctx, real, cases, fixed):
                 break
         for md_i, md in enumerate(MAXDEPTHS):
             impl = real.paths(document, c.real_vs, md if md else None)
-            model = [[(ERRMAP.get(cell[md_i], cell[md_i]) if isinstance(cell[md_i], str) else cell[md_i]) for cell in row] for row in a["paths"]]
+            model = [[(ERRMAP.get(cell[md_i], cell[md_i]) if isinstance(cell[md_i], str) else cell[md_i]) for cell in row] for row in a["paths" if sf_fixed else "pathsOrig"]]
             ctx.count()
             if impl != model:
-                if md == 0:
-                    # maxdepth=None is the mode the (unchanged) rule uses: property-relevant
-                    ctx.fail("corr:selected_fields", "model and selected_fields differ", c.detail(maxdepth=md, impl=impl, model=model), kind="correspondence")
-                else:
-                    # bounded maxdepth is modelled but is not part of what C19 states: recorded, never an alarm
-                    ctx.extra["selected_fields_bounded_maxdepth_differences"] = ctx.extra.get("selected_fields_bounded_maxdepth_differences", 0) + 1
-                    if len(ctx.notes) < 3:
-                        ctx.notes.append("selected_fields(maxdepth=%d) differs from the model on: %s" % (md, p_doc(c.doc)[:200]))
+                ctx.fail("corr:selected_fields", "model and selected_fields differ", c.detail(maxdepth=md, impl=impl, model=model), kind="correspondence")
                 break
         if md == MAXDEPTHS[-1]:
             impl0 = real.paths(document, c.real_vs, 0)
             if impl0 != real.paths(document, c.real_vs, None):
                 ctx.fail("corr:selected_fields:maxdepth0", "maxdepth=0 and None differ", c.detail(), kind="correspondence")
+
+
+def is_sf_fixed_tree():
+    from common import REPO
+    return "_selected_paths" in (REPO / "src/py_gql/utilities/collect_fields.py").read_text()
 
 
 def is_fixed_tree():
@@ -745,6 +807,8 @@ def corpus_cases():
 def run(ctx):
     real = Real()
     fixed = is_fixed_tree()
+    sf_fixed = is_sf_fixed_tree()
+    ctx.extra["selected_fields_under_test"] = "fixed (C19-Q1sf.patch applied)" if sf_fixed else "unchanged (descends into fields[0] only)"
     ctx.extra["tree_under_test"] = "fixed (proposed_fixes/C19-Q1.patch applied)" if fixed else "unchanged (Q1 present)"
     counter = [0]
     pending = []
@@ -769,7 +833,7 @@ def run(ctx):
             flush()
 
     def flush():
-        correspond(ctx, real, pending, fixed)
+        correspond(ctx, real, pending, fixed, sf_fixed)
         del pending[:]
 
     # --- corpus (hand-written edge cases; texts over the same schema) -------------------
@@ -843,7 +907,7 @@ def run(ctx):
         if fails:
             report(ctx, real, case, fails)
         if ctx.model_ok:
-            correspond(ctx, real, [case], fixed)
+            correspond(ctx, real, [case], fixed, sf_fixed)
 
 
 def doc_with_types(doc):
@@ -864,6 +928,8 @@ def replay(ctx, data):
             for via in (False, True):
                 if real.flags(document, vs, limit, filt, via_validate=via) != expected_flags(doc, vs, limit, filt):
                     ok = False
+    if ok and paths_failure(real, case, document):
+        ok = False
     if "base_text" in inp and ok:
         bdoc = real.parse(inp["base_text"])
         for i in range(len(doc["ops"])):
